@@ -99,6 +99,9 @@ def in_lit(facts, x, vals, adt, positive=True):
     if x[0] == "call" and x[1].endswith("::branch") and "option::Option" in x[1] and len(x[2]) == 1 and vals <= frozenset(["Continue", "Break"]):
         m = {"Continue": "Some", "Break": "None"}
         return in_lit(facts, x[2][0], [m[v] for v in vals], "core::option::Option", positive)
+    if x[0] == "call" and x[1].endswith("::branch") and "result::Result" in x[1] and len(x[2]) == 1 and vals <= frozenset(["Continue", "Break"]):
+        m = {"Continue": "Ok", "Break": "Err"}
+        return in_lit(facts, x[2][0], [m[v] for v in vals], "core::result::Result", positive)
     # a value whose variant is known
     if adt in ("core::option::Option", "core::result::Result"):
         known = None
@@ -586,6 +589,60 @@ class PG:
                 dfs(m, lits + list(ls), onpath | {m})
 
         dfs(0, [], {0})
+        return out
+
+    def site_values(self, at, f, limit=4000):
+        """[(literals, value)] for every acyclic path entry -> the statement at `at`: f(env) evaluated with, for every
+        local that has several definitions, the value of the last definition passed on that path (and the node's
+        tracked selectors). Lets a rule read `let v = match s {A => x, _ => y}; ..; field = v` as `field = x` under
+        `s in {A}` and `field = y` otherwise."""
+        out = []
+        cnt = [0]
+        a = self.an
+        body = self.body
+        sb, sidx = at
+        multi = {l for l, d in enumerate(a.defs) if len(d) >= 2 and l != 0 and not a.partial[l] and not a.mutref[l] and not a.is_param(l)}
+
+        def step(bi, penv, nenv, upto=None):
+            b = body.blocks[bi]
+            out_env = penv
+            for si, st in enumerate(b["stmts"]):
+                if upto is not None and upto != "term" and si >= upto:
+                    return out_env
+                if st["k"] == "assign" and not st["place"]["p"] and st["place"]["l"] in multi:
+                    env = dict(out_env)
+                    env.update(nenv or {})
+                    if out_env is penv:
+                        out_env = dict(penv)
+                    out_env[st["place"]["l"]] = a.expr_rvalue(st["rv"], (bi, si), 0, env or None)
+            if upto is not None:
+                return out_env
+            t = b["term"]
+            if t["k"] == "call" and t.get("dest") and not t["dest"]["p"] and t["dest"]["l"] in multi:
+                env = dict(out_env)
+                env.update(nenv or {})
+                if out_env is penv:
+                    out_env = dict(penv)
+                out_env[t["dest"]["l"]] = a.expr_call(t, (bi, "term"), 0, env or None)
+            return out_env
+
+        def dfs(n, lits, onpath, penv):
+            cnt[0] += 1
+            if cnt[0] > limit:
+                raise OverflowError("too many paths")
+            bi = self.nodes[n][0]
+            if bi == sb:
+                env = dict(step(bi, penv, self.envs[n], sidx))
+                env.update(self.env_at(n, sidx))
+                out.append((tuple(lits), f(env or None)))
+                return
+            penv = step(bi, penv, self.envs[n])
+            for m, ls in self.edges[n] or []:
+                if m in onpath:
+                    continue
+                dfs(m, lits + list(ls), onpath | {m}, penv)
+
+        dfs(0, [], {0}, {})
         return out
 
     def returns(self, limit=4000):
